@@ -365,6 +365,7 @@ func (p *Program) refineObligations(f *Frame, enc *Enc, con *Contract, fn *ssa.F
 			}
 		}
 		rn := resultNames(icon, isig)
+		enc.assumed["refinement of "+key+": the postconditions and the frame of the interface contract are checked for "+name+"; its own preconditions are assumed to hold at dynamic calls (the interface contract does not state them)"] = true
 		// "trust refine:Iface.Method[.label] reason": this part of the interface contract is not established for this
 		// implementation; it stays an assumption (reported with the other trust lines of the evidence)
 		trusted := func(nm string) bool {
